@@ -40,7 +40,21 @@ func main() {
 	list := flag.Bool("list", false, "list properties")
 	explain := flag.Bool("explain", false, "print the registered explanation of every property as JSON")
 	flag.BoolVar(&noControls, "nocontrols", false, "skip the positive/negative controls of the thorough tier")
+	writeRef := flag.Bool("write-reference", false, "write controls/REFERENCE.sha256 for the tree given by -repo (done by hand after the controls were validated on it)")
 	flag.Parse()
+	if *writeRef {
+		if *root == "" {
+			*root, _ = os.Getwd()
+		}
+		abs, _ := filepath.Abs(*repo)
+		d := treeDigest(abs)
+		if err := os.WriteFile(filepath.Join(*root, "controls", "REFERENCE.sha256"), []byte(d+"\n"), 0o644); err != nil {
+			fmt.Fprintln(os.Stderr, err)
+			os.Exit(2)
+		}
+		fmt.Println(d)
+		return
+	}
 	if *explain {
 		out := map[string]string{}
 		for id, d := range properties {
